@@ -592,3 +592,33 @@ Section FirstFuel.
     unfold first_sets in *. apply first_iter_more. exact H.
   Qed.
 End FirstFuel.
+
+(* ---- EMPTY in right-hand sides is invisible to first(grammar) ------------------------------- *)
+Section FirstStrip.
+  Variable e : N.
+
+  Lemma first_rhs_strip a r : forall st, first_rhs e a r st = first_rhs e a (strip e r) st.
+  Proof.
+    induction r as [|x r IH]; intros st; [reflexivity|].
+    unfold strip. cbn [filter]. destruct (is_EMPTY e x) eqn:Ex; cbn [negb].
+    - destruct x as [t|b]; [|discriminate]. cbn in Ex. apply N.eqb_eq in Ex. subst t.
+      cbn [first_rhs sym_first]. unfold nremove at 1. cbn [filter]. rewrite N.eqb_refl. cbn [negb nsubset forallb].
+      cbn [nmem existsb]. rewrite N.eqb_refl. cbn [orb]. apply IH.
+    - cbn [first_rhs]. fold (strip e r).
+      destruct (nmem e (sym_first (fst (if nsubset (nremove e (sym_first (fst st) x)) (fget (fst st) a)
+                                           then st else (fupd a (nunion (fget (fst st) a) (nremove e (sym_first (fst st) x))) (fst st), true))) x));
+        [apply IH|reflexivity].
+  Qed.
+
+  Theorem first_sets_strip fuel nnts ps :
+    first_sets e fuel nnts ps = first_sets e fuel nnts (strip_prods e ps).
+  Proof.
+    unfold first_sets. generalize (repeat (@nil N) nnts) as fs.
+    assert (Hround : forall fs, first_round e ps fs = first_round e (strip_prods e ps) fs).
+    { intros fs. unfold first_round, strip_prods. generalize (fs, false) as st.
+      induction ps as [|p r IH]; intros st; [reflexivity|]. cbn [map fold_left lhs rhs].
+      rewrite first_rhs_strip. apply IH. }
+    induction fuel as [|f IH]; intros fs; [reflexivity|]. cbn [first_iter]. rewrite Hround.
+    destruct (snd (first_round e (strip_prods e ps) fs)); [apply IH|reflexivity].
+  Qed.
+End FirstStrip.
